@@ -43,7 +43,7 @@ class C19(vlib.Check):
     rule = ("molecules with 1..12 conformers (shipped SDFs / embedded SMILES), with or without stored energies (4-decimal and "
             "full-precision values), sequential and non-sequential conformer ids, an own `Energy` property or not; three "
             "compressions; all write / read conformer limits in {None, -1, 1, 2, n, n+3}; SMILES tables with whitespace-free "
-            "ASCII / Unicode names. Non-trivial: >= 2 conformers written; distinct by case.")
+            "ASCII / Unicode names; molecule names that begin like a compressed stream or container; 100 - 130 conformers. Non-trivial: >= 2 conformers written; distinct by case.")
     trusted_base = ["RDKit SDWriter / ForwardSDMolSupplier (record format, 4-decimal coordinates), gzip/bz2 via smart_open (compared)"]
     assumptions = ["SDF coordinate precision and codec correctness are observed on samples, not proved (partial by nature)"]
 
@@ -65,9 +65,12 @@ class C19(vlib.Check):
         # aromatic N-H (pyrrole, indole, imidazole, pyrazolone), charged aromatic N, N-oxide
         implicit = [{"smiles": s_, "nconf": 2, "seed": 7, "hs": False} for s_ in
                     ("c1cc[nH]c1", "c1ccc2[nH]ccc2c1", "NCCc1c[nH]cn1", "Cc1cc(=O)[nH][nH]1", "C[n+]1ccccc1", "[O-][n+]1ccccc1", "c1ccoc1", "Cn1cnc2c1c(=O)n(C)c(=O)n2C")]
-        for _ in range(n):
+        for k_ in range(n):
             ref = rng.choice(implicit) if rng.random() < 0.15 else rng.choice(refs)
             nconf = rng.choice([1, 2, 3, 5, 12])
+            if k_ < 2 or rng.random() < 0.02:
+                nconf = rng.choice([100, 101, 130])        # conformer counts of three digits (order is numeric, not lexicographic)
+                self.count("conformers>=100")
             energies = None
             if rng.random() < 0.7:
                 energies = [round(rng.uniform(-50, 200), rng.choice([4, 4, 9])) for _ in range(nconf)]
